@@ -330,23 +330,24 @@ func snapPools(g *hermes.GlobalVarsMain) pools {
 }
 
 type monC07 struct {
-	pw          pools // at post_water
-	pn          pools // at pre_nitro
-	last        pools
-	haveLast    bool
-	pesumPW     float64
-	aufnaPW     float64
-	nfixPW      float64
-	pesumPre    float64
-	aufnaPre    float64
-	ndgPre      int
-	akfPre      int
-	ntilPre     int
-	legumeMulti bool
-	tillSeen    bool
-	fertSeen    bool
-	kernelRng   *Rng
-	multi       bool
+	pw             pools // at post_water
+	stagePW, akfPW int
+	pn             pools // at pre_nitro
+	last           pools
+	haveLast       bool
+	pesumPW        float64
+	aufnaPW        float64
+	nfixPW         float64
+	pesumPre       float64
+	aufnaPre       float64
+	ndgPre         int
+	akfPre         int
+	ntilPre        int
+	legumeMulti    bool
+	tillSeen       bool
+	fertSeen       bool
+	kernelRng      *Rng
+	multi          bool
 }
 
 func (m *monC07) Event(ev *hermes.VerifEvent, rc *RunCtx) {
@@ -357,6 +358,7 @@ func (m *monC07) Event(ev *hermes.VerifEvent, rc *RunCtx) {
 	case "post_water":
 		m.pw = snapPools(g)
 		m.pesumPW, m.aufnaPW, m.nfixPW = g.PESUM, g.AUFNASUM, g.NFIXSUM
+		m.stagePW, m.akfPW = g.INTWICK.Index, g.AKF.Index
 		if m.haveLast && ev.Subd > 1 {
 			if p := m.pw; math.Abs(p.pa-m.last.pa) > 0 || math.Abs(p.pf-m.last.pf) > 0 {
 				rc.Violate("C07", "organic_pools_changed_outside_n_routines", fmt.Sprintf("organic pool + mineralised counter changed during the water routine (%.17g,%.17g -> %.17g,%.17g)", m.last.pa, m.last.pf, p.pa, p.pf), ev.Zeit, 0, nil)
@@ -369,6 +371,17 @@ func (m *monC07) Event(ev *hermes.VerifEvent, rc *RunCtx) {
 		// crop growth may only ADD dead organs / roots to the pools
 		if m.pn.pa < m.pw.pa-tolFor(m.pw.pa) || m.pn.pf < m.pw.pf-tolFor(m.pw.pf) {
 			rc.Violate("C07", "organic_pool_decreased_in_crop_growth", fmt.Sprintf("organic pools decreased during crop growth (%.17g,%.17g -> %.17g,%.17g)", m.pw.pa, m.pw.pf, m.pn.pa, m.pn.pf), ev.Zeit, 0, nil)
+		}
+		// ... and what the crop routine adds to the pools (dead organs of a stand that dies back and sprouts again) is N the crop
+		// gives up in the same call: the pools cannot gain more than the crop N falls
+		// (checked on the day a permanent stand is set back to its first stage inside the crop routine; the small daily input
+		// of dead roots is not taken from the crop N by the model and stays below the slack of 0.5 kg N/ha)
+		if gain := (m.pn.pa - m.pw.pa) + (m.pn.pf - m.pw.pf); ev.Subd == 1 && g.INTWICK.Index < m.stagePW && g.AKF.Index == m.akfPW {
+			lost := m.pesumPW - g.PESUM
+			rc.Cov("days_permanent_stand_dies_back_and_sprouts_again", 1)
+			if gain > math.Max(lost, 0)+0.5 {
+				rc.Violate("C07", "organic_input_exceeds_crop_n_given_up", fmt.Sprintf("the crop routine added %.17g kg N/ha to the organic pools while the crop N fell by %.17g kg N/ha (crop N %.17g -> %.17g)", gain, lost, m.pesumPW, g.PESUM), ev.Zeit, 0, nil)
+			}
 		}
 		if ev.Subd > 1 && (m.pn.pa != m.pw.pa || m.pn.pf != m.pw.pf) {
 			rc.Violate("C07", "organic_pools_changed_outside_n_routines", "organic pools changed between water routine and N routine on a later sub-step", ev.Zeit, 0, nil)
